@@ -5,7 +5,7 @@
 static struct ledger_blk blocks_store[LEDGER_CAP];
 struct ledger_blk *ledger_blocks = blocks_store;
 int ledger_nblocks;
-int ledger_on;
+volatile int ledger_on;
 long ledger_count;
 long ledger_fail_at, ledger_fail_at2;
 int ledger_failed;
@@ -80,7 +80,7 @@ NI void __wrap_free(void *p) {
     if(!p) return;
     if(ledger_on) {
         int i = find(p);
-        if(i < 0) { ledger_bad_free++; return; }   /* unknown or double free: recorded, not executed */
+        if(i < 0) { ledger_bad_free++; if(getenv("VERIF_ABORT_BADFREE")) abort(); return; }   /* unknown or double free: recorded, not executed */
         del_at(i);
     } else {
         int i = find(p);
